@@ -139,6 +139,7 @@ def parseCfg (q : String) (rest : List String) : Option Cfg :=
       | w :: r =>
         match w.toList with
         | 't' :: '=' :: t => (parseTok (String.ofList t)).bind fun c => go r { cfg with target := some c }
+        | 'e' :: '=' :: e => (parseNats (String.ofList e)).bind fun l => if l.all (· ≤ 64) then go r { cfg with expected := l } else none
         | _ => none
     go rest { quorum := qu, target := none, isReg := false }
 
@@ -234,6 +235,10 @@ def searchCandidates : List String :=
   -- the merge of a split must not depend on the iteration order of the result map (ties: equal highest counters,
   -- several verified bases, mixed kinds)
   hist ["merge s0.2.0g s0.2.1g", "merge s0.2.1g s0.2.0g", "merge r0g.0 r1g.1", "merge r1g.1 r0g.0", "merge t0 r0g.1", "merge s0.1.0g s0.1.1g s0.1.2g"] ++
+  -- named holders (`expected_holders`) must not lower the number of copies required
+  hist ["get 0 0 majority e=1.2.3", "found 0 1 hc0", "found 0 2 hc0", "finished 0"] ++
+  hist ["get 0 0 majority e=1.2", "found 0 1 hc0", "timeout 0"] ++
+  hist ["get 0 0 n3 e=1", "found 0 1 hc0", "found 0 2 hc0", "timeout 0"] ++
   -- split
   hist ["get 0 0 n2", "found 0 1 hc0", "found 0 2 hc1", "found 0 3 hc1"] ++
   hist ["get 0 0 n2", "found 0 1 hc0", "found 0 2 hc1", "finished 0"]
